@@ -114,8 +114,12 @@ class Ctx:
             # alternate go.mod so that /repo itself is never touched
             mf = os.path.join(self.work, "alt.mod")
             text = open(os.path.join(HARNESS, "go.mod")).read().replace("=> /repo", "=> " + os.path.abspath(REPO))
-            open(mf, "w").write(text)
-            shutil.copy(os.path.join(REPO, "go.sum"), os.path.join(self.work, "alt.sum"))
+            # builds of several variants run in parallel: never let one of them see a half-written file
+            for path, data in ((mf, text), (os.path.join(self.work, "alt.sum"), open(os.path.join(REPO, "go.sum")).read())):
+                if not os.path.exists(path) or open(path).read() != data:
+                    tmp = "%s.%d.%d.tmp" % (path, os.getpid(), threading.get_ident())
+                    open(tmp, "w").write(data)
+                    os.replace(tmp, path)
             modfile = ["-modfile=" + mf]
         cover = []
         if os.environ.get("VERIF_COVER") and not race:
